@@ -183,6 +183,19 @@ def run(ctx):
                        f"its window with the latch released: lookups {looks}", {"scenario": seg},
                        key="c08-failed-refresh-evicts-stale")
 
+    seg = segment("concurrent-stale-ttl")
+    if seg is not None:
+        bad = []
+        for op, im in seg:
+            if op.startswith("clookttl ") and "maxttl=" in im:
+                t = int(kvs(op)["t"])
+                left = 86400 - (t - 946684800000000000) // 1000000000
+                if int(im.split("maxttl=")[1]) > left + 15:
+                    bad.append((op, im, left))
+        if bad:
+            ctx.report("simultaneous lookups of a name that had been idle: one was answered with the TTL packed before the idle "
+                       f"period — {bad[0][1]} with {bad[0][2]} s of lifetime left (slack 15 s); {len(bad)} of 50 bursts",
+                       {"scenario": bad[:5]}, key="c08-concurrent-lookup-stale-packed-ttl")
     seg = segment("reuse-reload-config")
     if seg is not None:
         recs = [im for op, im in seg if op.startswith("reconf ")]
